@@ -515,7 +515,12 @@ def run_harness(h, keep=False, extra_defines=()):
         has_violation = any(p['kind'] == 'obligation' and p['status'] == 'FAILURE' for p in res['props'])
         # UNKNOWN = CBMC did not decide a check because an earlier one on the same path already failed
         bad_sanity = [p for p in res['props'] if p['kind'] in ('sanity', 'unwind') and p['status'] != 'SUCCESS'
-                      and not (has_violation and p['status'] == 'UNKNOWN')]
+                      and not (has_violation and p['status'] == 'UNKNOWN')
+                      # a counterexample to an obligation is a real execution of the program text whether or not some
+                      # loop could have run longer than the unwinding bound: only a *pass* depends on the unwinding assertions
+                      and not (has_violation and p['kind'] == 'unwind')]
+        if has_violation and any(p['kind'] == 'unwind' and p['status'] == 'FAILURE' for p in res['props']):
+            res['unwind_incomplete'] = True
         if bad_sanity:
             res['status'] = 'undecided'
             res['detail'] = 'harness sanity / unwinding checks failed: ' + '; '.join(
